@@ -344,6 +344,26 @@ fn derive_copy_shape(def: &CopyDef, symbol_table: &mut BTreeMap<Rc<str>, Shape>)
             //  1.1 If so then return the ret as our shape.
             mdef.ret.as_ref().clone()
         }
+        // A tuple known only from the fields selected from it so far (a
+        // function argument, env) is not the complete tuple, and neither is
+        // a copy of it.
+        Shape::Tuple(t_def)
+            if !t_def.val.is_empty()
+                && t_def.val.iter().all(|(_, s)| {
+                    matches!(
+                        s,
+                        Shape::Narrowed(NarrowedShape {
+                            types: NarrowingShape::Any,
+                            ..
+                        })
+                    )
+                }) =>
+        {
+            Shape::Narrowed(NarrowedShape {
+                pos: def.pos.clone(),
+                types: NarrowingShape::Any,
+            })
+        }
         Shape::Tuple(t_def) => {
             Shape::Tuple(copied_tuple_shape(t_def, def, symbol_table)).with_pos(def.pos.clone())
         }
